@@ -17,17 +17,17 @@ Limit(e) ==
   CASE e.kind \in {"status-line", "header-line", "header-line-folded", "connect-header-line"} -> MaxLine
     [] e.kind \in {"valid-headers", "dup-headers", "invalid-name-headers"} -> (e.maxHeaders + 2) * 64
     [] e.kind \in {"chunk-size-line", "chunk-size-zeros", "chunk-ext"} -> MaxSizeLine
-    [] e.kind = "connect-refusal-body" -> MaxRefusal
+    [] e.kind \in {"connect-refusal-body", "connect-refusal-body-declared"} -> MaxRefusal
     [] OTHER -> 0
 
 Bounded(e) == e.kind \in {"status-line", "header-line", "header-line-folded", "connect-header-line", "valid-headers",
                           "dup-headers", "invalid-name-headers", "chunk-size-line", "chunk-size-zeros", "chunk-ext",
-                          "connect-refusal-body"}
+                          "connect-refusal-body", "connect-refusal-body-declared"}
 
 G05_returns(e)   == e.res \in {"ok", "err"}
 G05_pullBound(e) == Bounded(e) => e.pulled <= e.baseLen + Limit(e) + Slack
 \* an endless construct is never accepted as a complete response
-G05_endlessRejected(e) == (Bounded(e) /\ e.kind # "connect-refusal-body") => e.res # "ok"
+G05_endlessRejected(e) == (Bounded(e) /\ e.kind \notin {"connect-refusal-body", "connect-refusal-body-declared"}) => e.res # "ok"
 G05_allocBound(e) == e.peak <= 2097152 + 4 * e.pulled
 
 HostileGuards == {"G05_returns", "G05_pullBound", "G05_endlessRejected", "G05_allocBound"}
